@@ -87,8 +87,22 @@ FloatFold ==
      IN Judge(Len(e.rs) >= 1 /\ exp.k = "float" /\ AllResults(e, exp), exp)
   /\ UNCHANGED memo
 
+\* `x1 op1 x2 op2 ... xn' with operators of one precedence level groups left to right, however long it is (C14): every
+\* form of the unparenthesised chain gives the end of the left-to-right chain of recorded steps
+FloatChain ==
+  /\ IsEvent("fchain")
+  /\ LET e == Cur
+         RECURSIVE Chain(_, _)
+         Chain(acc, i) == IF i > Len(e.ops) THEN [k |-> "float", l |-> acc]
+                          ELSE LET key == <<e.ops[i], acc, e.xs[i + 1]>> IN
+                               IF key \in DOMAIN memo /\ memo[key].k = "float" THEN Chain(memo[key].l, i + 1)
+                               ELSE [k |-> "no-recorded-step", at |-> i]
+         exp == Chain(e.xs[1], 1)
+     IN Judge(Len(e.rs) >= 1 /\ Len(e.xs) = Len(e.ops) + 1 /\ exp.k = "float" /\ AllResults(e, exp), exp)
+  /\ UNCHANGED memo
+
 Init == l = 1 /\ memo = <<>> /\ bad = 0
-Next == IntBinary \/ IntUnary \/ FloatCompare \/ FloatUnary \/ FloatArith \/ FloatFold
+Next == IntBinary \/ IntUnary \/ FloatCompare \/ FloatUnary \/ FloatArith \/ FloatFold \/ FloatChain
 TraceSpec == Init /\ [][Next]_vars
 
 \* every record was consumed (a record of an unknown shape stops the trace)
